@@ -20,7 +20,14 @@ RULE = ("fault plan: for each (scenario, model) the number N of allocations made
         "(documented: handlers do not return). distinct = (scenario, model, k) with an injected failure that was reached")
 ASSUMPTIONS = ["only allocations routed through mju_malloc are faulted (the statement's scope); std::bad_alloc paths are out of scope",
                "a failure that is absorbed (call succeeds without the block) is counted, not flagged",
-               "LeakSanitizer is off: blocks lost when the non-returning error handler unwinds are measured by the shadow table instead"]
+               "LeakSanitizer is off: blocks lost when the non-returning error handler unwinds are measured by the shadow table instead",
+               "objects whose struct is owned by the caller (mjvScene) are released with their documented destructor (mjv_freeScene) "
+               "also after a trapped error - mjv_makeScene stores every block in the struct before the next request, so only what "
+               "survives the destructor is a leak; objects the engine returns by pointer (mjModel/mjData/mjSpec) cannot be released "
+               "by the caller after a trapped error and whatever they held is counted",
+               "leak signatures carry the allocating function and the outcome (trapped-error | error-return | ok); outcome `ok` "
+               "(call succeeded, blocks left) is a different defect from the known raising-mju_malloc mechanism and is never "
+               "matched by a known-finding entry"]
 
 SCENARIOS = ["parse", "loadxml", "compile", "makedata", "copydata", "copymodel", "saveload", "copyspec", "recompile", "step",
              "scene", "print", "resetkey"]
